@@ -7,7 +7,7 @@ INV = ["KnownExactlyChosen", "KnownCarryHidden", "HiddenIsLastDraw", "Fresh", "R
 FAMILIES = ("factory,predictible_factory,factory_one,factory_square,factory_exp,factory_fixed,factory_cheerleader_next,noisy_factory,"
             "noisy_factory_square,graph,graph_beta_2_3,graph_poiss_1,graph_random,graph_ws_connected,graph_internet,graph_geometric,"
             "graph_geographical_treshold,graph_cycle,xos,xos_one,xos2,xos12,xos_norm_additive,xs,oxs,xs2,xs6,k_budget_generator,covg_fn_generator")
-QUICK_FAMILIES = "factory,noisy_factory,graph_random,graph_cycle,graph_beta_2_3,xos,xs,oxs,k_budget_generator,covg_fn_generator,predictible_factory,factory_cheerleader_next"
+QUICK_FAMILIES = "factory,noisy_factory,graph_random,graph_cycle,graph_beta_2_3,xos,xs,xs2,xs3,oxs,k_budget_generator,covg_fn_generator,predictible_factory,factory_cheerleader_next"
 CLASSES = "superadditive,superadditive_cached,sam_apx_1,sam_apx_10"
 
 
@@ -28,8 +28,10 @@ def run(chk, args):
     chk.model_check("MC_Gym", "MC_Gym_live.cfg")
     validate_gym_traces(chk, [
         {"kind": "walk", "ns": "3,4" if q else "3,4,5", "count": 24 if q else 120, "classes": CLASSES},
-        {"kind": "walk", "source": "family", "ns": "3,4" if q else "3,4,5", "count": 24 if q else 120,
-         "families": QUICK_FAMILIES if q else FAMILIES, "classes": CLASSES},
+        {"kind": "walk", "source": "family", "ns": "3,4" if q else "3,4,5", "count": 56 if q else 29 * 8,
+         "families": QUICK_FAMILIES if q else FAMILIES + ",xs2,xs3", "classes": CLASSES},
+        {"kind": "walk", "source": "family", "ns": "3,4,5", "count": 24 if q else 96, "gaps": "exploitability",
+         "families": "xs2,xs3,xs6,oxs,noisy_factory,noisy_factory_square", "classes": CLASSES},
     ])
     replay_gym_behaviours(chk, "SA3", {"N": 3, "gameset": "SA", "comps": {"sa", "sac"}, "reps": {0}}, 40 if q else 300, 12)
     replay_gym_behaviours(chk, "SAM3", {"N": 3, "gameset": "SAM", "comps": {"sam"}, "reps": {0, 1, 2}}, 20 if q else 200, 12)
